@@ -103,6 +103,10 @@ def obj(name):
     return OBJ[name]
 
 
+class StrSub(str):
+    """A proper subclass of str: `type(value) != str`, so the parser answers None; parse_time still takes it for text."""
+
+
 def render(c):
     """Python-side canonical rendering of an iso case (independent of the model)."""
     y, m, d, H, M, S, us = c["dt"]
@@ -159,6 +163,10 @@ def value_of(c):
         return c["text"]
     if k == "bytes":
         return c["bytes"]
+    if k == "strsub":
+        return StrSub(c["text"])
+    if k == "buffer":
+        return bytearray(c["bytes"]) if c["as"] == "bytearray" else memoryview(c["bytes"])
     if k == "int":
         return c["n"]
     if k == "npint":
@@ -237,6 +245,9 @@ def model_input(v):
         return ["bytes", bytes(v)] if text_in_domain(s) else None
     if t is str:
         return ["str", v] if text_in_domain(v) else None
+    if isinstance(v, str):
+        # an instance of a proper subclass of str (numpy.str_ too): None for the parser (`type(value) != str`), text for parse_time
+        return ["strsub", str.__str__(v)] if text_in_domain(str.__str__(v)) else None
     if t is datetime.datetime:
         return ["datetime", [v.year, v.month, v.day, v.hour, v.minute, v.second, v.microsecond]]
     if t is datetime.date:
@@ -353,9 +364,20 @@ def expected(c, v):
             return ("any",)
         if not date_shaped(s):
             return ("none",)
+        if len(s) <= 33:
+            # no listed form has 11..15 or 17..18 characters in front of its Z / +offset (date 10, minute 16, seconds 19 and more):
+            # a rendering cut off inside a field is "other input" (theorems date_form_tails / minute_form_tails / text_grammar)
+            u = s[:-1] if s.endswith("Z") else s
+            w = u.split("+")[0] if "+" in u else u
+            if len(w) in (11, 12, 13, 14, 15, 17, 18):
+                return ("none",)
         return ("any",)
     if k == "obj":
         return ("any",) if obj(c["name"])[1] else ("none",)
+    if k == "buffer":
+        return ("none",)  # bytearray / memoryview are not bytes: "every other input yields None"
+    if k == "strsub":
+        return ("any",)  # a reader may or may not take a str subclass for text; it must not raise (and is compared with the model)
     if k == "time":
         return ("none",)
     return ("any",)
@@ -458,6 +480,10 @@ def evaluate(ctx, cases):
                 for k in ("DATE", "TIMESTAMP", "TIME"):
                     slots.append((i, k))
                     lines.append("C08 cast " + wire.line(k, mi))
+            if mi[0] in ("str", "strsub"):
+                # mirror: the model of datetime.time.fromisoformat vs CPython's, the implementation out of the picture
+                slots.append((i, "timeiso"))
+                lines.append("C08 timeiso " + wire.line(mi[1]))
         if c["kind"] == "iso":
             slots.append((i, "render"))
             lines.append("C08 render " + wire.line(c["form"], c["dt"], c["sep"], c["k"], c["suffix"]))
@@ -468,8 +494,22 @@ def evaluate(ctx, cases):
     for (i, what), o in zip(slots, ctx.model.batch(lines)):
         if not o.startswith("ok "):
             raise InfraError("model rejected %s of case %r: %r" % (what, cases[i], o))
-        mres[i][what] = wire.dec_all(o[3:]) if what == "tailread" else wire.dec_all(o[3:])[0]
+        dec = wire.dec_all(o[3:])
+        mres[i][what] = dec if what == "tailread" else dec[0]
+        if what in ("DATE", "TIMESTAMP", "TIME"):
+            # [what the cast program translated from the source on this run returns, what the specification form Iso.cast says]
+            mres[i][what + ":spec"] = dec[1]
     for c, v, m in zip(cases, vals, mres):
+        if "timeiso" in m:
+            t = str.__str__(v)
+            try:
+                r = datetime.time.fromisoformat(t)
+                want = ["time", r.hour, r.minute, r.second, r.microsecond]
+            except ValueError:
+                want = ["raises", "ValueError"]
+            ctx.hit("time.fromisoformat:" + want[0])
+            if m["timeiso"] != want:
+                raise InfraError("model of datetime.time.fromisoformat %r differs from CPython %r on %r" % (m["timeiso"], want, t))
         if "tailread" in m:
             t = c["tail"]
             u = t[:-1] if t.endswith("Z") else t
@@ -494,7 +534,7 @@ def evaluate(ctx, cases):
             ctx.fail(c, "parser gives different results for the same argument on a repeated call", impl={"first": out["parse"], "second": again})
             continue
         ctx.hit("kind:" + c["kind"] + (":" + c["form"] if c["kind"] == "iso" else "") + (":" + c["ty"] if c["kind"] == "num" else ""))
-        if c["kind"] in ("text", "bytes", "isotail", "iso"):
+        if c["kind"] in ("text", "bytes", "isotail", "iso", "strsub"):
             try:
                 L = len(v if isinstance(v, str) else v.decode("utf-8"))
                 ctx.hit("textlen:%s" % (L if L in (9, 10, 11, 15, 16, 17, 18, 19, 20, 28, 29, 32, 33, 34) else "other"))
@@ -531,13 +571,15 @@ def evaluate(ctx, cases):
                 ctx.disagree(c, ip, m["skel"], "parse_iso vs the hand-written skeleton Iso.textPath (the code has moved away from the proven skeleton)")
                 continue
             for k in ("DATE", "TIMESTAMP", "TIME"):
-                if k == "TIME" and isinstance(v, (str, bytes)) and ip == ["none"]:
-                    # text the parser does not read: parse_time then tries datetime.time.fromisoformat, which is outside the
-                    # model and outside the statement (only the DATE and TIMESTAMP casts are tied to the parser)
-                    ctx.hit("time-cast-of-unread-text:not-compared")
+                if k not in m:
                     continue
-                if k in m and cast_model_out(m[k]) != out[k]:
-                    ctx.disagree(c, {k: out[k]}, {k: m[k]}, "OrsoTypes.%s.parse vs Iso.cast" % k)
+                if k == "TIME" and isinstance(v, (str, bytes)) and ip == ["none"]:
+                    ctx.hit("time-cast-of-unread-text:" + out[k][0])
+                if cast_model_out(m[k]) != out[k]:
+                    ctx.disagree(c, {k: out[k]}, {k: m[k]}, "OrsoTypes.%s.parse vs the cast program translated from the source (Gen.IsoCast)" % k)
+                    break
+                if cast_model_out(m[k + ":spec"]) != out[k]:
+                    ctx.disagree(c, {k: out[k]}, {k: m[k + ":spec"]}, "OrsoTypes.%s.parse vs the specification form Iso.cast (the code has moved away from the proven specification)" % k)
                     break
 
 
@@ -739,6 +781,83 @@ def boundary_cases(ctx):
                             yield {"kind": "text", "text": t}
     for t in list(seen)[:0]:
         pass
+
+
+EDGE_TEXTS = [
+    # non-ASCII digits (Arabic-Indic, fullwidth, Devanagari), superscripts, white space, signs, NUL
+    "٢٠٢٣-٠٤-١٨", "２０２３-０４-１８", "２０２３-04-18", "2023-04-1８", "2023-०४-18", "²⁰²³-04-18", "١٢٣٤٥٦٧٨٩٠", "１２３４", "१२३", "²³", "①②③",
+    "2023-04-18\u00a0", "\u20032023-04-18", " 2023-04-18", "2023-04-18 ", "\t2023-04-18T12:34:56", "2023-04-18T12:34:56\n", "2023-04-18 \x0c12:34",
+    "+023-04-18", "-023-04-18", "2023-+4-18", "2023--4-18", "2023-04-+8", "2023-04--8", "2023-04-18T+2:34:56", "2023-04-18T-2:34:56", "2023-04-18T12:+4:56",
+    "2023-04-18T12:34:+6", "2023-04-18T12:34:-6", "2023-04-18 12:34:5_", "2_23-04-18", "20_3-04-18", "2023-1_-18",
+    "2023-04-18\x00", "\x002023-04-18", "2023-04-18T12:34:56\x00", "2023\x0004-18", "\x00" * 10, "12\x0034",
+    # separators and zone designators
+    "2023-04-18t12:34:56", "2023-04-18t12:34", "2023-04-18_12:34:56", "2023-04-18T12:34:56z", "2023-04-18T12:34:56Z", "2023-04-18 12:34:56Z",
+    "2023-04-18T12:34z", "2023-04-18z", "2023-04-18T12:34:56+00:00", "2023-04-18T12:34:56-00:00", "2023-04-18T12:34:56+14:00", "2023-04-18T12:34:56-12:00",
+    "2023-04-18T12:34:56+05:30:15", "2023-04-18T12:34:56 +05:30", "2023-04-18T12:34:56UTC", "2023-04-18T12:34:56 Z", "2023-04-18T12:34+05:30", "2023-04-18+05:30",
+    # fractional seconds of 1..12 digits, comma
+    ] + ["2023-04-18T12:34:56." + "123456789012"[:k] for k in range(1, 13)] + ["2023-04-18 12:34:56." + "987654321098"[:k] + "Z" for k in range(1, 13)] + [
+    "2023-04-18T12:34:56,5", "2023-04-18T12:34:56.", "2023-04-18T12:34:56.Z", "2023-04-18T12:34:56.5.5",
+    # years, leap days, end-of-day spellings
+    "0000-01-01", "0000-12-31T23:59:59", "0001-01-01", "0001-01-01T00:00:00", "9999-12-31", "9999-12-31T23:59:59", "9999-12-31T23:59:59.999999Z", "10000-01-01",
+    "1900-02-29", "2100-02-29", "1700-02-29", "2000-02-29", "1600-02-29", "0400-02-29", "0100-02-29", "0004-02-29", "2023-02-29", "2024-02-29", "2024-02-30",
+    "2023-04-18T24:00:00", "2023-04-18T24:00", "2023-04-18 24:00:00Z", "2023-12-31T23:59:60", "2016-12-31T23:59:60Z", "2023-04-18T23:60:00", "2023-04-18T23:59:61",
+    # a time of day on its own (what parse_time reads after the parser gave up), every layout of datetime.time.fromisoformat
+    "12:34:56", "12:34", "12", "T12:34:56", "123456", "1234", "12:34:56.5", "12:34:56.123456", "12:34:56.1234567", "12:34:56,123", "12:34:56Z", "12:34:56+05:30",
+    "12:34:56-05:30", "12:34:56.789+05:30", "24:00:00", "23:59:60", "23:60", "00:00", "00:00:00.000000", "12:34:56.1234567890", "12:34:56 ", " 12:34:56",
+    "12:34:5", "1:34:56", "12:34:56:5", "12304512", "12x+01:00", "12:30:Z", "12:34:56+24:00", "12:34:56-23:59", "12:34:56.Z", "12:34\x00", "12\x00", "１２:34", "12:34:56é",
+]
+
+
+def edge_cases(ctx):
+    """Deterministic: every named edge text as str, UTF-8 bytes, an instance of a str subclass, bytearray and memoryview, each with all
+    three casts (and, like every case, each call made twice)."""
+    seen = set()
+    for t in EDGE_TEXTS:
+        if t in seen:
+            continue
+        seen.add(t)
+        yield {"kind": "text", "text": t, "casts": True}
+        yield {"kind": "strsub", "text": t, "casts": True}
+        b = t.encode("utf-8")
+        yield {"kind": "bytes", "bytes": b, "casts": True}
+        yield {"kind": "buffer", "as": "bytearray", "bytes": b, "casts": True}
+        yield {"kind": "buffer", "as": "memoryview", "bytes": b, "casts": True}
+
+
+def timeofday_cases(ctx, n):
+    """Times of day written on their own, in every layout `datetime.time.fromisoformat` reads (HH, HH:MM, HH:MM:SS, basic forms,
+    `.`/`,` fractions of 0..9 digits, leading T, zone designators), valid and just out of range, then mutated; as str, bytes, str subclass."""
+    rng = ctx.rng
+    alpha = "0123456789" * 3 + "::..,TZ+- \x00éx"
+    for _ in range(n):
+        if rng.random() < 0.15:
+            t = "".join(rng.choice(alpha) for _ in range(rng.randint(0, 12)))
+        else:
+            H, M, S = rng.choice([0, 9, 12, 23, 24, rng.randint(0, 23)]), rng.choice([0, 59, 60, rng.randint(0, 59)]), rng.choice([0, 59, 60, rng.randint(0, 59)])
+            t = rng.choice(["%02d:%02d:%02d", "%02d:%02d:%02d", "%02d:%02d:%02d", "%02d%02d%02d", "%02d:%02d%.0s", "%02d%02d%.0s", "%02d%.0s%.0s"]) % (H, M, S)
+            if rng.random() < 0.5:
+                t += rng.choice("..,") + "".join(rng.choice("0123456789") for _ in range(rng.randint(0, 9)))
+            if rng.random() < 0.3:
+                t += rng.choice(["Z", "+01:00", "-0530", "+23:59", "+24:00", "-23:59:59", "+00:00:00.5", "+1", "+", "-12", "+12:", "Z ", "z"])
+            t = list(t)
+            for _ in range(rng.choice([0, 0, 0, 1, 1, 2])):
+                op = rng.random()
+                if op < 0.4 and t:
+                    t[rng.randrange(len(t))] = rng.choice(alpha)
+                elif op < 0.7 and t:
+                    del t[rng.randrange(len(t))]
+                else:
+                    t.insert(rng.randint(0, len(t)), rng.choice(alpha))
+            if rng.random() < 0.1:
+                t.insert(0, "T")
+            t = "".join(t)
+        r = rng.random()
+        if r < 0.6:
+            yield {"kind": "text", "text": t, "casts": True}
+        elif r < 0.85:
+            yield {"kind": "bytes", "bytes": t.encode("utf-8"), "casts": True}
+        else:
+            yield {"kind": "strsub", "text": t, "casts": True}
 
 
 def num_cases(ctx, n):
@@ -954,6 +1073,8 @@ def run(ctx):
     batches(ctx, iso_cases(ctx, ctx.scale(120, 900)))
     batches(ctx, tail_cases(ctx, ctx.scale(3000, 30000)))
     batches(ctx, boundary_cases(ctx))
+    batches(ctx, edge_cases(ctx))
+    batches(ctx, timeofday_cases(ctx, ctx.scale(4000, 40000)))
     batches(ctx, num_cases(ctx, ctx.scale(40, 400)))
     for c in seq_cases(ctx, ctx.scale(60, 600)):
         evaluate_seq(ctx, c)
@@ -964,6 +1085,8 @@ def intensify(ctx):
     batches(ctx, text_cases(ctx, 20000))
     batches(ctx, epoch_cases(ctx, 10000))
     batches(ctx, iso_cases(ctx, 150))
+    batches(ctx, edge_cases(ctx))
+    batches(ctx, timeofday_cases(ctx, 10000))
 
 
 def replay(ctx, case):
